@@ -57,6 +57,8 @@ Inductive op :=
 | OpNop                                (* page mode / protect / unprotect: no effect on the library *)
 | OpConstOps (s t : nat)               (* the catalogue of const operations on s (compared with t) *)
 | OpThreads (s t n : nat)              (* the same from n threads *)
+| OpEByte (s : nat) (i : Z)            (* a BasicContiguousElement over an allocator of std::byte (the alias
+                                         cntgs::ContiguousElement) deep-copies element i of vector s *)
 | OpCmpVec (a b : nat)                 (* all six operators between two vectors *)
 | OpCmpRef (a : nat) (i : Z) (b : nat) (j : Z)   (* ... between element references a[i], b[j] *)
 | OpObserve (s : nat).
@@ -73,6 +75,7 @@ Inductive obs :=
 | OIter (r : list Z)
 | OCase (stored : list (list Z)) (moved : list Z)
 | OThreads (n : nat)
+| OEByte (ok : bool) (bytes : Z)     (* size of the block the byte-allocator element requested, in bytes *)
 | OElem (e : nat) (aid : Z) (bid : nat) (units : Z) (fields : list (Z * list (list Z)))
 | OENull (e : nat)
 | OEGone (e : nat)
@@ -406,6 +409,9 @@ Definition step (K : akind) (L : list param) (w : world) (o : op) : world :=
   | OpConstOps s t =>
       emit w [obs_vec L s w; OCmp (cmp_vecs L (getv w s) (getv w t)); OCmp (cmp_vecs L (getv w s) (getv w s))]
   | OpThreads s t n => emit w [OThreads n]
+  | OpEByte s i =>
+      let v := getv w s in
+      emit w [OEByte true (SA L * units L (ref_bytes L (vfl L v i)))]
   | OpCmpVec a b => emit w [OCmp (cmp_vecs L (getv w a) (getv w b))]
   | OpCmpRef a i b j => emit w [OCmp (cmp_refs L (getv w a) i (getv w b) j)]
   | OpObserve s => emit w [obs_vec L s w]
